@@ -248,9 +248,9 @@ fn plan_key(plan: &IoPlan, fired: &[usize]) -> u64 {
         let x = &plan.faults[i];
         d.u64(x.side as u64);
         d.u64(match x.kind {
-            FaultKind::Hard(k) => 0x10 + k as u64 + ((x.arg as u64 % 4) << 8),
+            FaultKind::Hard(k) => 0x10 + k as u64 + ((x.arg as u64 % 4) << 8) + ((x.arg as u64 & 0x100) << 4),
             FaultKind::Interrupted => 0x30 + x.arg.clamp(1, 3) as u64,
-            FaultKind::Zero => 0x40,
+            FaultKind::Zero => 0x40 + ((x.arg as u64 & 0x100) >> 4),
         });
         d.u64(x.at);
     }
@@ -359,11 +359,16 @@ impl<'a> JobState<'a> {
                 FaultKind::Zero => {
                     if f.side == Side::Src {
                         "premature_eof".to_string()
+                    } else if f.arg & STICKY != 0 {
+                        "zero_write_sticky".to_string()
                     } else {
                         "zero_write".to_string()
                     }
                 }
             };
+            if matches!(f.kind, FaultKind::Hard(_)) && f.arg & STICKY != 0 {
+                self.res.bump("fault.sticky_hard_error");
+            }
             self.res.bump(&format!("fault.{}.{}", side, kind));
             // abstract state: where did it land
             if f.side == Side::Src {
@@ -807,7 +812,7 @@ impl Engine for IoEngine {
             });
         }
         for &off in dst_near.iter() {
-            for kind in [FaultKind::Interrupted, FaultKind::Zero] {
+            for (kind, arg) in [(FaultKind::Interrupted, 2), (FaultKind::Zero, 0), (FaultKind::Zero, STICKY), (FaultKind::Hard(0), STICKY)] {
                 st.run(&IoPlan {
                     src_frag: Frag::Whole,
                     dst_frag: Frag::Whole,
@@ -815,7 +820,7 @@ impl Engine for IoEngine {
                         side: Side::Dst,
                         kind,
                         at: off,
-                        arg: 2,
+                        arg,
                     }],
                     tail_seed: 0,
                 });
@@ -852,7 +857,11 @@ impl Engine for IoEngine {
                     kind,
                     at,
                     // burst length for EINTR, error construction flavour for hard errors
-                    arg: if matches!(kind, FaultKind::Hard(_)) { rng.below(4) as u32 } else { rng.range(1, 3) as u32 },
+                    arg: match kind {
+                        FaultKind::Hard(_) => rng.below(4) as u32 | if rng.chance(1, 4) { STICKY } else { 0 },
+                        FaultKind::Zero => if rng.chance(1, 3) { STICKY } else { 0 },
+                        FaultKind::Interrupted => rng.range(1, 3) as u32,
+                    },
                 });
             }
             let plan = IoPlan {
